@@ -445,7 +445,14 @@ def write_evidence(prop, tier, base_seed, agg, wall, ndet, nworkers,
         "wall_s": round(wall, 2),
         "violations": int(nviol),
     }
-    path = os.path.join(VERIF, "evidence", "%s.json" % prop)
+    evdir = "evidence"
+    alt = os.environ.get("VERIF_REPO_SRC")
+    if alt and os.path.realpath(alt) != os.path.realpath(
+            os.path.join(REPO, "src")):
+        # a scratch copy is under test (seeded change, mutant): the committed
+        # evidence must only ever describe /repo itself
+        evdir = os.path.join("scratch", "evidence-other-tree")
+    path = os.path.join(VERIF, evdir, "%s.json" % prop)
     os.makedirs(os.path.dirname(path), exist_ok=True)
     with open(path, "w") as f:
         json.dump(ev, f, indent=1, default=str)
